@@ -466,14 +466,53 @@ namespace sim
         return runtime::action::invalid;
     }
 
-    static void step_vm_new(const json& st)
+    std::unique_ptr<VM> g_template;
+    static const int64_t EPOCH_NS = 1600000000LL * 1000000000LL;
+
+    static std::unique_ptr<VM> construct_vm(const std::string& id, const std::string& ops, const std::string& fio)
     {
         auto vm = std::make_unique<VM>();
-        vm->id = st.value("vm", std::string("vm") + std::to_string(g->vms.size()));
-        vm->ord = (int)g->vms.size();
+        vm->id = id;
         vm->logger = std::make_unique<HarnessLogger>(vm->id);
         runtime::runtime_conf conf;
         conf.print_context_work_to_log_on_exit = true;
+        vm->rt = std::make_unique<runtime>(*vm->logger, conf);
+        auto& rt = *vm->rt;
+        if (fio == "default") rt.fileio(std::make_unique<sqf::fileio::impl_default>(*vm->logger));
+        rt.parser_config(std::make_unique<sqf::parser::config::parser>(*vm->logger));
+        rt.parser_preprocessor(std::make_unique<sqf::parser::preprocessor::impl_default>(*vm->logger));
+        rt.parser_sqf(std::make_unique<sqf::parser::sqf::parser>(*vm->logger));
+        if (ops == "full") sqf::operators::ops(rt);
+        register_harness_ops(rt);
+        return vm;
+    }
+    void build_template()
+    {
+        // Built once in the parent before any fork: children adopt it copy-on-write instead of registering
+        // ~2500 operators again. Its timestamps are the epoch the virtual clock starts at.
+        g_template = construct_vm("template", "full", "default");
+    }
+
+    static void step_vm_new(const json& st)
+    {
+        std::string id = st.value("vm", std::string("vm") + std::to_string(g->vms.size()));
+        std::string fio = st.value("fileio", std::string("default"));
+        std::string ops = st.value("ops", std::string("full"));
+        std::unique_ptr<VM> vm;
+        if (g_template && ops == "full" && fio == "default" && g->clock_ns == EPOCH_NS && g->polls == 0 && st.value("template", true))
+        {
+            vm = std::move(g_template);
+            vm->id = id;
+            vm->logger->vm_id = id;
+            g->probe("template_vm");
+        }
+        else
+        {
+            vm = construct_vm(id, ops, fio);
+        }
+        vm->ord = (int)g->vms.size();
+        auto& rt = *vm->rt;
+        auto& conf = rt.configuration();
         if (st.contains("conf"))
         {
             auto& c = st["conf"];
@@ -483,16 +522,6 @@ namespace sim
             if (c.contains("disable_sleep")) conf.disable_sleep = c["disable_sleep"].get<bool>();
             if (c.contains("classname_check")) conf.enable_classname_check = c["classname_check"].get<bool>();
         }
-        vm->rt = std::make_unique<runtime>(*vm->logger, conf);
-        auto& rt = *vm->rt;
-        std::string fio = st.value("fileio", std::string("default"));
-        if (fio == "default") rt.fileio(std::make_unique<sqf::fileio::impl_default>(*vm->logger));
-        rt.parser_config(std::make_unique<sqf::parser::config::parser>(*vm->logger));
-        rt.parser_preprocessor(std::make_unique<sqf::parser::preprocessor::impl_default>(*vm->logger));
-        rt.parser_sqf(std::make_unique<sqf::parser::sqf::parser>(*vm->logger));
-        std::string ops = st.value("ops", std::string("full"));
-        if (ops == "full") sqf::operators::ops(rt);
-        register_harness_ops(rt);
         if (st.contains("mappings"))
         {
             for (auto& m : st["mappings"]) rt.fileio().add_mapping(m[0].get<std::string>(), m[1].get<std::string>());
@@ -668,7 +697,6 @@ namespace sim
         if (p.contains("clock"))
         {
             auto& c = p["clock"];
-            if (c.contains("start_ns")) g->clock_ns = c["start_ns"].get<int64_t>();
             if (c.contains("per_instr_ns")) g->per_instr_ns = c["per_instr_ns"].get<int64_t>();
             if (c.contains("per_poll_ns")) g->per_poll_ns = c["per_poll_ns"].get<int64_t>();
             if (c.contains("idle_jump")) g->idle_jump = c["idle_jump"].get<bool>();
